@@ -123,7 +123,8 @@ def write_container(reader, path, arr, nprng, variant):
         if x.shape[0] == 0:
             x = np.zeros((1,) + x.shape[1:], dtype=np.int16)  # the header cannot promise zero samples
         with open(path, "wb") as f:
-            f.write(sph_util.pcm_file(x, "01" if variant % 2 == 0 else "10"))
+            # (every third file carries a lot of metadata: a 2048-byte header whose mandatory fields lie across byte 1024)
+            f.write(sph_util.pcm_file(x, "01" if variant % 2 == 0 else "10", **(dict(hsize=2048, lead=sph_util.METADATA) if variant % 3 == 2 else {})))
         return x, None
     raise ValueError(reader)
 
